@@ -2394,6 +2394,16 @@ create_filesystem_object(struct archive_write_disk *a)
 				__archive_ensure_cloexec_flag(a->fd);
 				if (a->fd < 0)
 					r = errno;
+			} else {
+				/*
+				 * The link is not a regular file (it may be
+				 * a link to a symlink), so there is nothing
+				 * to write the data to and the metadata must
+				 * not be applied through the new name:
+				 * chmod() would follow a symlink.
+				 */
+				a->todo = 0;
+				a->deferred = 0;
 			}
 		}
 		return (r);
